@@ -118,7 +118,7 @@ func runDecoders(r *Rng, n int, st *Stats, cf *CoqFile, corpus map[string][]Seed
 		}
 		rcases = append(rcases, &Case{ID: i, Kind: "roi", Input: in})
 	}
-	outs = RunPool(rcases, 2, 1500*time.Millisecond)
+	outs = RunPool(rcases, 2, 5*time.Second)
 	items = nil
 	for i, o := range outs {
 		c := rcases[i]
